@@ -198,10 +198,16 @@ pub fn add_signed_mul<'a>(
     }
 
     if b.len() <= THRESHOLD_SIMPLE {
+        #[cfg(dashu_verif)]
+        dashu_base::verif::hit(dashu_base::verif::MUL_SIMPLE);
         simple::add_signed_mul(c, sign, a, b, memory)
     } else if b.len() <= THRESHOLD_KARATSUBA {
+        #[cfg(dashu_verif)]
+        dashu_base::verif::hit(dashu_base::verif::MUL_KARATSUBA);
         karatsuba::add_signed_mul(c, sign, a, b, memory)
     } else {
+        #[cfg(dashu_verif)]
+        dashu_base::verif::hit(dashu_base::verif::MUL_TOOM3);
         toom_3::add_signed_mul(c, sign, a, b, memory)
     }
 }
@@ -221,10 +227,16 @@ pub fn add_signed_mul_same_len(
     debug_assert!(b.len() == n && c.len() == 2 * n);
 
     if n <= THRESHOLD_SIMPLE {
+        #[cfg(dashu_verif)]
+        dashu_base::verif::hit(dashu_base::verif::MUL_SIMPLE);
         simple::add_signed_mul_same_len(c, sign, a, b, memory)
     } else if n <= THRESHOLD_KARATSUBA {
+        #[cfg(dashu_verif)]
+        dashu_base::verif::hit(dashu_base::verif::MUL_KARATSUBA);
         karatsuba::add_signed_mul_same_len(c, sign, a, b, memory)
     } else {
+        #[cfg(dashu_verif)]
+        dashu_base::verif::hit(dashu_base::verif::MUL_TOOM3);
         toom_3::add_signed_mul_same_len(c, sign, a, b, memory)
     }
 }
